@@ -68,6 +68,10 @@ func draw(label, kind string, n int) []uint64 {
 	if rf == nil {
 		panic(Failure{"desync", "no replay file loaded (native run outside replay)"})
 	}
+	// clock readings chosen by the solver cannot be injected natively: skip them
+	for next < len(rf.Draws) && rf.Draws[next].Kind == "Now" {
+		next++
+	}
 	if next >= len(rf.Draws) {
 		panic(Failure{"desync", "replay file exhausted at " + label})
 	}
@@ -338,3 +342,7 @@ func RefTZ64(x uint64) int {
 	}
 	return 64
 }
+
+// ClockJump lets an arbitrary amount of time pass before the next clock read
+// (the engine otherwise assumes consecutive reads are less than an hour apart).
+func ClockJump() {}
